@@ -44,8 +44,10 @@ class KindGen(G.GrammarGen):
                     alts = []
                     for b in r.sample(below, r.randrange(1, len(below) + 1)):
                         form = r.random()
-                        if form < 0.55:
+                        if form < 0.45:
                             alts.append(G.Ref(b))
+                        elif form < 0.6:
+                            alts.append(G.Seq([G.Str("["), G.Ref(b), G.Str("]")]))   # wrapped in terminals
                         elif form < 0.8:
                             alts.append(G.Seq([G.Str(r.choice(["x", "y"])), G.Ref(b)]))
                         else:
